@@ -1262,6 +1262,85 @@ M('C15','promise-ontrigger-no-inline','runtime/promise/event.go','''	unsubscribe
 		callback()
 	}''','''	unsubscribe, subscribed := registerCallback()
 	_ = subscribed''','promise/register-or-call-inline runtime/promise.Event.OnTrigger')
+M('C15','promise-ontrigger-inline-under-lock','runtime/promise/event.go','''		if e.callbacks == nil {
+			return void, false
+		}
+
+		callbackID := e.callbackIDs.Next()
+
+		e.callbacks.Set(callbackID, callback)
+
+		return func() {
+			e.mutex.Lock()
+			defer e.mutex.Unlock()
+
+			if e.callbacks != nil {
+				e.callbacks.Delete(callbackID)
+			}
+		}, true
+	}
+
+	unsubscribe, subscribed := registerCallback()
+	if !subscribed {
+		callback()
+	}
+''','''		if e.callbacks == nil {
+			callback()
+
+			return void, false
+		}
+
+		callbackID := e.callbackIDs.Next()
+
+		e.callbacks.Set(callbackID, callback)
+
+		return func() {
+			e.mutex.Lock()
+			defer e.mutex.Unlock()
+
+			if e.callbacks != nil {
+				e.callbacks.Delete(callbackID)
+			}
+		}, true
+	}
+
+	unsubscribe, _ = registerCallback()
+''','promise/register-or-call-inline runtime/promise.Event.OnTrigger')
+M('C15','promise-ontrigger-test-outside-lock','runtime/promise/event.go','''func (e *Event) OnTrigger(callback func()) (unsubscribe func()) {
+	registerCallback := func() (unsubscribe func(), subscribed bool) {
+		e.mutex.Lock()
+		defer e.mutex.Unlock()
+
+		if e.callbacks == nil {
+			return void, false
+		}
+
+		callbackID := e.callbackIDs.Next()
+
+		e.callbacks.Set(callbackID, callback)
+''','''func (e *Event) OnTrigger(callback func()) (unsubscribe func()) {
+	registerCallback := func() (unsubscribe func(), subscribed bool) {
+		if e.callbacks == nil {
+			return void, false
+		}
+
+		e.mutex.Lock()
+		defer e.mutex.Unlock()
+
+		callbackID := e.callbackIDs.Next()
+
+		e.callbacks.Set(callbackID, callback)
+''','promise/register-or-call-inline runtime/promise.Event.OnTrigger')
+M('C15','promise-trigger-call-under-lock','runtime/promise/event.go','''func (e *Event) Trigger() (wasTriggered bool) {
+	for _, callback := range func() []func() {
+		e.mutex.Lock()
+		defer e.mutex.Unlock()
+''','''func (e *Event) Trigger() (wasTriggered bool) {
+	e.mutex.Lock()
+	defer e.mutex.Unlock()
+
+	for _, callback := range func() []func() {
+''','promise/swap-and-call-outside runtime/promise.Event.Trigger')
 M('C15','notifier-deregister-by-value','runtime/valuenotifier/listener.go','if !exists || valueListeners != registeredListener {','if !exists {','ident/unregister-own-entry runtime/valuenotifier.Notifier.removeListener')
 M('C15','notifier-notify-keeps-entry','runtime/valuenotifier/listener.go','''	close(valueListener.channel)
 
